@@ -64,6 +64,26 @@ void vf_corpus_init(void) {
     put(0xff);
     finish("chunked text string of %llu chunks", GR[c], 0);
   }
+  /* indefinite containers that grow past 2^16 entries (one more doubling step than any 16-bit count reaches) */
+  {
+    const uint64_t big = 65540;
+    put(0x9f);
+    for (uint64_t i = 0; i < big; i++) put((uint8_t)(i % 24));
+    put(0xff);
+    finish("indefinite array of %llu", big, 0);
+    put(0xbf);
+    for (uint64_t i = 0; i < big; i++) { put((uint8_t)(i % 24)); put((uint8_t)(0x20 + i % 23)); }
+    put(0xff);
+    finish("indefinite map of %llu pairs", big, 0);
+    put(0x5f);
+    for (uint64_t i = 0; i < big; i++) put(0x40);
+    put(0xff);
+    finish("chunked byte string of %llu empty chunks", big, 0);
+    put(0x7f);
+    for (uint64_t i = 0; i < big; i++) put(0x60);
+    put(0xff);
+    finish("chunked text string of %llu empty chunks", big, 0);
+  }
   static const uint64_t LEN[] = {23, 24, 255, 256, 65535, 65536};
   for (unsigned c = 0; c < 6; c++)
     for (int text = 0; text < 2; text++) {
